@@ -9,6 +9,7 @@ import (
 
 	kmip "github.com/smira/go-kmip"
 
+	"kvharness/internal/drv"
 	"kvharness/internal/rec"
 	"kvharness/internal/tlsm"
 )
@@ -18,7 +19,7 @@ import (
 // connection.  Judged directly: no read deadline is ever armed when ReadTimeout is zero, no write deadline when
 // WriteTimeout is zero (SetDeadline arms both), and a connection that completes each request within the non-zero timeouts
 // is never cut off because of its age.
-func c15TLS(r *Result) {
+func c15TLS(r *Result, d *drv.Driver) {
 	const T = 250 * time.Millisecond
 	ca := tlsm.NewCA("c15-ca")
 	serverCert := tlsm.Leaf(ca, tlsm.LeafOpts{Host: "kmip.test"})
@@ -112,6 +113,31 @@ func c15TLS(r *Result) {
 		r.Stats["tls-deadline-scenarios"]++
 		if len(r.Samples) < 6 {
 			r.sample(map[string]string{"scenario": key, "observed": obs})
+		}
+		// the same connection in the Lean session model (tls=1): its sequence of deadline events, handshake included, must be the
+		// real one (the model is what C15_handshake_armed / C15_read_rearmed / C15_zero_never_* are proved about)
+		if answered == sent && d != nil {
+			line := fmt.Sprintf("session rt=%s wt=%s tls=1 hs=1 sa=none ra=0 sid=1 reg=%d", b01(c.rt != 0), b01(c.wt != 0), uint32(kmip.OPERATION_ACTIVATE))
+			for i := 0; i < sent; i++ {
+				line += fmt.Sprintf(" | R v=1.4 corr=- bc=1 async=0 cred=0 auth=fail clock=0 w=1 items=%d:-:%d:s%d/1", uint32(kmip.OPERATION_ACTIVATE), i*100, i*100)
+			}
+			line += " | X"
+			if rep, err := d.Ask(line); err == nil {
+				var want, got []string
+				for _, e := range strings.Split(rep, ";") {
+					if e == "armRead" || e == "armWrite" {
+						want = append(want, e)
+					}
+				}
+				for _, e := range evs {
+					if e == "armRead" || e == "armWrite" || e == "armBoth" {
+						got = append(got, e)
+					}
+				}
+				if strings.Join(want, ";") != strings.Join(got, ";") {
+					r.find(Finding{Kind: "disagreement", What: "deadline events of a TLS session differ from the session model's (tls=1)", Input: line, Expect: strings.Join(want, ";"), Actual: strings.Join(got, ";")})
+				}
+			}
 		}
 		if c.rt == 0 && (count("armRead") > 0 || count("armBoth") > 0) {
 			r.find(Finding{Kind: "violation", What: "a read deadline was set on a TLS connection although ReadTimeout is zero", Input: key, Expect: "armRead=0 armBoth=0", Actual: obs + " events=" + strings.Join(evs, ";")})
